@@ -277,9 +277,37 @@ def check_models(chk, models, seeds):
             chk.count(1)
             summary[name][f"seed_{hs}"] = "compared"
     # numeric observation: the loaded model evaluates identically (structural identity makes this immediate)
+    # a model that has been USED (look-ups in its parameter mapping by symbol, name and position, substitution of the mapping into
+    # an expression) is still the same model: its round trip is the identity as well
+    for name, model in models.items():
+        case = {"model": name, "after": "keyed look-ups and xreplace with parameter_defaults"}
+        pd = model.parameter_defaults
+        try:
+            keys = list(pd)
+            if keys:
+                _ = pd[keys[0]], pd[keys[-1].name], pd[0], keys[0] in pd, pd.get(keys[0])
+                pd[keys[0]] = pd[keys[0]]
+            with warnings.catch_warnings():
+                warnings.simplefilter("ignore")
+                model.intensity.xreplace(pd)
+        except Exception as e:  # noqa: BLE001
+            chk.violation(f"ParameterValues:use-raises-{type(e).__name__}", f"model {name}: {e!r}", case)
+            continue
+        try:
+            back = pickle.loads(pickle.dumps(model))
+        except Exception as e:  # noqa: BLE001
+            chk.violation(f"HelicityModel.pickle(after-use):raises-{type(e).__name__}", f"model {name} cannot be pickled once its parameter mapping has been used: {e!r}", case)
+            continue
+        for attr, what in M.compare_models(model, back):
+            chk.violation(f"HelicityModel.pickle(after-use):{attr}:{what.split(' of ')[0].split(':')[0]}", f"model {name}, after use: {attr}: {what}", case)
+        chk.count(1)
+        chk.nontrivial(("model", name, "after-use"))
     name = "canonical_bw_ff" if "canonical_bw_ff" in models else next(iter(models))
     m = models[name]
-    back = pickle.loads(pickle.dumps(m))
+    try:
+        back = pickle.loads(pickle.dumps(m))
+    except Exception:  # noqa: BLE001  (reported by the clause above)
+        back = m
     with warnings.catch_warnings():
         warnings.simplefilter("ignore")
         e1, e2 = m.expression, back.expression
